@@ -182,6 +182,28 @@ func e(x : float) -> float { exp(x) } catch (overflow) { 1.0 } catch (underflow)
 func main(i : int) -> int { let a = m(4.0); let b = m(0.0 - 4.0); let c = e(1000.0); let d = e(0.0 - 1000.0); let f = e(1.0);
   (a == 2.0 ? 1 : 0) + (b == 0.0 - 1.0 ? 10 : 0) + (c == 1.0 ? 100 : 0) + (d == 2.0 ? 1000 : 0) + (f > 2.7 ? 10000 : 0) }
 """, dict(exc=True, math=True)))
+    # chains: a fault raised INSIDE a clause is offered to the clauses after it (in source order), never to the ones before it
+    kinds = [("division_by_zero", "10 / (d - d)"), ("index_out_of_bounds", "a[7 + d]"), ("nil_pointer", "get(nilr(d))")]
+    order = list(kinds); rng.shuffle(order)
+    k1, k2, k3 = order
+    out.append(("exc_chain", """
+record R { v : int; }
+func get(r : R) -> int { r.v }
+func nilr(d : int) -> R { var q = R(d); q = nil; q }
+func chain(a[D] : int, d : int, sel : int) -> int
+{
+    sel == 0 ? %s : (sel == 1 ? %s : (sel == 2 ? %s : d))
+}
+catch (%s) { prints("c1\\n"); %s }
+catch (%s) { prints("c2\\n"); %s }
+catch (%s) { prints("c3\\n"); 0 - 3 }
+func main(n : int) -> int {
+    let a = [ 10, 20, 30 ] : int;
+    print(chain(a, 1, 0)); print(chain(a, 1, 1)); print(chain(a, 1, 2)); print(chain(a, 1, 3));
+    0
+}
+""" % (k1[1], k2[1], k3[1], k1[0], k2[1], k2[0], k3[1], k3[0]),
+        dict(exc=True, chain=True, shape=True, expect_out="c1\nc2\nc3\n-3\r\nc2\nc3\n-3\r\nc3\n-3\r\n1\r\n", expect_res="I0")))
     return out
 
 def idx_family(rng):
